@@ -237,8 +237,6 @@ def replay_sorter(ctx, cands):
     from .cli import run_jawk, show
     seen = set()
     for c in cands:
-        if c.unmodelled:
-            c.status = 'inconclusive'; continue
         mv = c.model
         sig = json.dumps(mv, sort_keys=True)
         rows = []
